@@ -90,6 +90,7 @@ struct NttCheck { Ctx& ctx; };
 static void run_ntt(Ctx& ctx, uint64_t n, bool inverse, bool traces) {
   const char* dn = inverse ? "intt" : "ntt";
   q120_ntt_precomp* pc = inverse ? q120_new_intt_bb_precomp(n) : q120_new_ntt_bb_precomp(n);
+  if (!ntt_tables_ready(pc, inverse)) { ctx.metric_add(5); return; }  // tables not readable in this build (counted; the product parts and C03's end-to-end parts still run)
   // 1. the abstract model, complete over primes and stages
   {
     std::string id = sfmt("envelope|%s|n=%llu", dn, (unsigned long long)n);
